@@ -122,7 +122,8 @@ RelViolations(rel, a, b) ==
          IF ~(a.in = b.in /\ SameCfgExcept(a, b, "crlf") /\ a.cfg.crlf # b.cfg.crlf) THEN {<<"SKIP", "lecfg precondition">>}
          ELSE IF NormNL(a.out) # NormNL(b.out) THEN {<<"C09", "crlf_is_lf_substituted">>} ELSE {}
     [] rel = "lein" ->
-         IF ~(SameCfgExcept(a, b, "none") /\ ~HasCR(a.in) /\ b.in = CrlfOf(a.in) /\ NoVerbatimLineSpanning(a))
+         \* b.in is a.in with all, or some, of its line breaks written CRLF
+         IF ~(SameCfgExcept(a, b, "none") /\ ~HasCR(a.in) /\ NormNL(b.in) = a.in /\ NoVerbatimLineSpanning(a))
            THEN {<<"SKIP", "lein precondition">>}
          ELSE IF b.out # a.out THEN {<<"C09", "input_endings">>} ELSE {}
     [] rel = "tabs" ->
